@@ -319,9 +319,12 @@ def run(tier):
     w = workdir("c17" + SFX)
     quick = tier == "quick"
     # ---------------- (M) + (G): model checking, generation   (independent of /repo)
-    mains = ["MC_Outline_quick.cfg", "MC_Outline_quick4.cfg"] if quick else ["MC_Outline_thorough.cfg"]
+    # quick: <= 3 bookmarks x {1,2} pages and 4 bookmarks x 1 page, one allocation between build and link;
+    # thorough adds 4 bookmarks x 3 pages (both link modes, no extra allocation)
+    mains = ["MC_Outline_quick.cfg", "MC_Outline_quick4.cfg"] + ([] if quick else ["MC_Outline_thorough.cfg"])
     # all TLC jobs of this phase are independent of each other and of /repo: run them side by side
-    jobs = [(cfg, dict(workers=4 if quick else 12, coverage=True, xmx="4g" if quick else "8g")) for cfg in mains] \
+    big = "MC_Outline_thorough.cfg"      # action coverage is measured on the two smaller runs (the big one has MaxPost = 0)
+    jobs = [(cfg, dict(workers=12 if cfg == big else 4, coverage=cfg != big, xmx="8g" if cfg == big else "4g")) for cfg in mains] \
         + [(cfg, dict(workers=2, xmx="2g")) for cfg in REPAIRED] \
         + [(cfg, dict(workers=1, xmx="1g", allow_violation=True)) for cfg, _ in CONTROLS]
     with ThreadPoolExecutor(max_workers=len(jobs)) as ex:
@@ -332,7 +335,7 @@ def run(tier):
     seen, cases = set(), []
     for cfg in mains + REPAIRED:
         r = runs[cfg]
-        if cfg in mains:
+        if cfg in mains and cfg != big:
             vlib.require_coverage(r, ACTIONS)
         chk.add_tlc(r)
         for c in r.tagged("REPLAY"):
